@@ -253,25 +253,56 @@ func ruleK3(rule string) RuleFn {
 		if pg == nil {
 			return
 		}
-		// does parseGroupString guarantee a non-empty name?
+		// does parseGroupString guarantee a non-empty name? The test must be about the value that is
+		// returned as Name: the field itself (with no later store into it) or the very value stored.
 		guarantee := true
 		nn := 0
+		var nameStores []*ssa.Store
+		stored := map[string]bool{}
+		an.Instrs(pg, func(in ssa.Instruction) {
+			if st, ok := in.(*ssa.Store); ok {
+				if fa, ok := st.Addr.(*ssa.FieldAddr); ok && an.FieldName(fa.X.Type(), fa.Field) == "Name" && an.IsDigNamed(fa.X.Type(), "group") {
+					nameStores = append(nameStores, st)
+					stored[an.Norm(an.Resolve(st.Val))] = true
+				}
+			}
+		})
+		reField := regexp.MustCompile(`^\((?:len\()?(new:[A-Za-z_]+\.Name)\)? (?:!= ""|> 0)\)$`)
+		reVal := regexp.MustCompile(`^\((?:len\()?(.*?)\)? (?:!= ""|> 0)\)$`)
+		nameTested := func(f an.Fact) bool {
+			if reField.MatchString(f.S) {
+				return true
+			}
+			if m := reVal.FindStringSubmatch(f.S); m != nil && len(stored) == 1 && stored[m[1]] {
+				return true
+			}
+			return false
+		}
 		an.Instrs(pg, func(in ssa.Instruction) {
 			r, ok := in.(*ssa.Return)
 			if !ok || isErrorExit(r) {
 				return
 			}
 			nn++
-			g := an.NewGates().AddEdges(an.EdgesWhere(pg, func(f an.Fact) bool {
-				return regexp.MustCompile(`^\((new:[A-Za-z_]+\.Name|strings\.Split\(p:s, ","\)(\[:\])?\[0\]) != ""\)$`).MatchString(f.S) ||
-					regexp.MustCompile(`^\(len\((new:[A-Za-z_]+\.Name|strings\.Split\(p:s, ","\)(\[:\])?\[0\])\) > 0\)$`).MatchString(f.S)
-			})...)
+			edges := an.EdgesWhere(pg, nameTested)
+			g := an.NewGates().AddEdges(edges...)
 			if g.Len() == 0 {
 				guarantee = false
 				return
 			}
 			if hit, _ := an.PathTo(pg, nil, an.IsInstr(r), g); hit != nil {
 				guarantee = false
+			}
+			// no store into Name after the test
+			for _, e := range edges {
+				for _, st := range nameStores {
+					first := e.From.Succs[e.Succ].Instrs[0]
+					if first == ssa.Instruction(st) {
+						guarantee = false
+					} else if hit, _ := an.PathTo(pg, first, an.IsInstr(st), nil); hit != nil {
+						guarantee = false
+					}
+				}
 			}
 		})
 		if nn == 0 {
